@@ -46,6 +46,9 @@ def jobs(tier, seed):
                 dts = dts[:2]
             out.append(dict({'name': '%s%s-mixed-%s' % (op, '-' + extra['func'] if 'func' in extra else '', '-'.join(dts)), 'op': op, 'layers': len(dts), 'shape': [1, 2], 'sym': 'all',
                              'data_vars': None, 'dtypes': dts}, **extra))
+    # 64-bit integer ids next to a float layer: tuples that differ only beyond 2^53 are different tuples (concrete values)
+    out.append({'name': 'combine-int64-beyond-2p53', 'op': 'combine', 'layers': 2, 'shape': [1, 3], 'sym': 'all', 'data_vars': None,
+                'concrete': [[[2 ** 53, 2 ** 53 + 1, 5]], [[1.0, 1.0, 1.0]]], 'dtypes': ['int64', 'float64']})
     out.append({'name': 'combine-1x3', 'op': 'combine', 'layers': 2, 'shape': [1, 3], 'sym': 'all', 'data_vars': None})
     out.append({'name': 'combine-2x2-reordered', 'op': 'combine', 'layers': 2, 'shape': [2, 2], 'sym': 'all', 'data_vars': [1, 0]})
     # non-square raster, one symbolic cell per job position: output cell (y, x) must depend on input cell (y, x) only
@@ -80,7 +83,9 @@ def _dataset(ctx, job):
     layers = {}
     raw = {}
     for li, nm in enumerate(names):
-        if job['sym'] == 'all':
+        if job.get('concrete'):
+            a = symnp.asarray(job['concrete'][li], job['dtypes'][li]).copy()
+        elif job['sym'] == 'all':
             dt = (job.get('dtypes') or ['float64'] * L)[li]
             a = ctx.array(nm, (h, w), dt, nan=True, **({'lo': -3, 'hi': 3} if dt[0] in 'iu' else {}))
         else:
